@@ -152,7 +152,8 @@ H1Syntax == {"obsfold", "barelf", "nul", "cr", "spcolon"}
 H1Cl == {"cl:5", "cl:3", "cl:plus", "cl:hex", "cl:empty", "cl:listeq", "cl:listne"}
 H1Te == {"te:chunked", "te:gzip", "te:chunked,identity", "te:gzip,chunked", "te:xchunked", "te:junk"}
 H1Tok == H1Syntax \cup H1Cl \cup H1Te \cup {"badname", "conn:close", "conn:keepalive"}
-ChunkShapes == {"valid", "trailers", "badsize", "ext", "lf"}
+\* trframing: trailer section carrying Content-Length / Host (RFC 9110 6.5.1: never used for framing or routing)
+ChunkShapes == {"valid", "trailers", "trframing", "badsize", "ext", "lf"}
 
 HostSeq(h) == CASE h = "a" -> <<"a">> [] h = "b" -> <<"b">> [] h = "none" -> <<>>
                 [] h = "ab" -> <<"a", "b">> [] h = "ba" -> <<"b", "a">> [] h = "aa" -> <<"a", "a">>
@@ -225,7 +226,7 @@ H1Run(c) ==
           Result("fwd", und(R("cl", st.len)), head \o (IF st.len > 0 THEN <<<<"raw", st.len>>>> ELSE <<>>) \o tail, FALSE, FALSE)
      ELSE IF st.bs = "chunked" THEN
           CASE c.chunk = "valid"    -> Result("fwd", und(R("chunked", 5)), head \o <<<<"chunk", 5>>, <<"last">>, <<"eot">>>> \o tail, FALSE, FALSE)
-            [] c.chunk = "trailers" -> Result("fwd", und(R("chunked", 5)), head \o <<<<"chunk", 5>>, <<"last">>, <<"trailer", "x-t">>, <<"eot">>>> \o tail, FALSE, FALSE)
+            [] c.chunk \in {"trailers", "trframing"} -> Result("fwd", und(R("chunked", 5)), head \o <<<<"chunk", 5>>, <<"last">>, <<"trailer", "x-t">>, <<"eot">>>> \o tail, FALSE, FALSE)
             [] OTHER                -> Result("r400", <<>>, <<>>, TRUE, FALSE)    \* bad chunk framing: 400, the head may already be out
      ELSE \* neither Content-Length nor Transfer-Encoding
           IF Dev("NoLenUntilClose")
@@ -243,7 +244,8 @@ H2Bad == {"upper", "badname", "val:cr", "val:lf", "val:nul", "te:gzip",
 H2Cl == {"cl:5", "cl:3", "cl:plus", "cl:sp", "cl:empty", "cl:list"}
 H2Tok == H2Bad \cup H2Cl \cup {"host:a", "host:b", "te:trailers", "plain"}
 DataShapes == {"es", "d5", "d3", "d6", "d5+1"}
-TrShapes == {"none", "plain", "ident", "pseudo", "cs", "badval", "noes"}
+\* framing: trailer block carrying content-length / host (forwarded as trailer fields, never used for framing or routing)
+TrShapes == {"none", "plain", "ident", "framing", "pseudo", "cs", "badval", "noes"}
 
 P(k, v) == [k |-> k, v |-> v]
 PsList(ps, hdrs) ==
@@ -315,7 +317,7 @@ H2Run(c) ==
       headTe  == WireReq(st.method, st.path, "1.1", st.auth, <<<<"te", "chunked">>>>)
       head0   == WireReq(st.method, st.path, "1.1", st.auth, <<<<"cl", "0">>>>)
       chunks  == [i \in 1..Len(frames) |-> <<"chunk", frames[i]>>]
-      trOk    == c.tr \in {"plain", "ident"}
+      trOk    == c.tr \in {"plain", "ident", "framing"}
   IN IF headBad THEN rst(FALSE, FALSE)
      ELSE IF esOnHeaders /\ declared /\ st.len > 0 THEN rst(FALSE, FALSE)           \* END_STREAM with non-zero Content-Length
      ELSE IF st.path = "*" THEN Result("r404", <<SentinelH2>>, WireSentinelH2, FALSE, FALSE)   \* no frontend for path "*"
